@@ -1173,8 +1173,11 @@ impl Sup {
         s
     }
 
-    pub fn run(spec: SupSpec) -> SupOut {
+    pub fn run(mut spec: SupSpec) -> SupOut {
         let t0 = Instant::now();
+        // thread roles depend on the driver: read it from the command line
+        spec.sched.parblock = spec.args.windows(2).any(|w| w[0] == b"--driver" && w[1] == b"parblock") || spec.args.iter().any(|a| a == b"--driver=parblock")
+            || spec.extra_env.iter().any(|(k, v)| k == "XV_DRIVER" && v == "parblock");
         let errp = spec.out_dir.join("stderr");
         let outp = spec.out_dir.join("stdout");
         let errf = File::create(&errp).expect("stderr file");
